@@ -520,6 +520,7 @@ func (sm *shardManagerImpl) UnregisterShard(clientShardID history.ClusterShardID
 		// Update metrics after local shards change
 		sm.mutex.Unlock()
 
+		vfYield("unregister.window")
 		sm.removeLocalShard(clientShardID)
 		sm.broadcastShardChange("unregister", clientShardID)
 
